@@ -164,33 +164,8 @@ func (a *AvailableCommands) Decode(c *proto.PacketContext, rd io.Reader) error {
 		wireNodes = append(wireNodes, wn)
 	}
 
-	var ok bool
-	queue := append([]*WireNode{}, wireNodes...) // copy
-	// Iterate over the deserialized nodes and attempt to form a graph.
-	// We also resolve any cycles that exist.
-	for len(queue) != 0 {
-		var cycling bool
-
-		for i := 0; i < len(queue); {
-			node := queue[i]
-			ok, err = node.toNodes(wireNodes)
-			if err != nil {
-				return err
-			}
-			if ok {
-				cycling = true
-				queue = removeWN(queue, i)
-				// don't increment i since removing element at i
-				// makes i now point to the next element
-				continue
-			}
-			i++
-		}
-
-		if !cycling {
-			// Uh-oh. We can't cycle. This is bad.
-			return errors.New("stopped cycling; the root node can't be built")
-		}
+	if err = buildCommandGraph(wireNodes); err != nil {
+		return err
 	}
 
 	rootIDx, err := util.ReadVarInt(rd)
@@ -201,17 +176,58 @@ func (a *AvailableCommands) Decode(c *proto.PacketContext, rd io.Reader) error {
 		return fmt.Errorf("rootIDx points to non-existent index %d (max=%d)", rootIDx, len(wireNodes))
 	}
 	built := wireNodes[rootIDx].Built
-	a.RootNode, ok = built.(*brigodier.RootCommandNode)
+	root, ok := built.(*brigodier.RootCommandNode)
 	if !ok {
 		return fmt.Errorf("built node type is not *RootCommandNode (%T)", built)
 	}
+	a.RootNode = root
 	return nil
 }
 
-// remove element from slice: order is not important
-func removeWN(s []*WireNode, i int) []*WireNode {
-	s[len(s)-1], s[i] = s[i], s[len(s)-1]
-	return s[:len(s)-1]
+// checkChildrenAcyclic rejects graphs in which a node is its own descendant (a node listing itself as a
+// child, or A -> B -> A). The graph builder below attaches a child as soon as the child's node object
+// exists, so it would accept such a graph and produce a cyclic "tree"; brigodier's AddChild, which merges
+// same-named children recursively, then never returns (stack overflow), and any later traversal would
+// loop. The vanilla client rejects these graphs as well ("impossible command tree").
+// Iterative depth-first search, linear in nodes + child references.
+func checkChildrenAcyclic(wireNodes []*WireNode) error {
+	const (
+		unvisited = iota
+		visiting
+		done
+	)
+	type frame struct{ node, next int }
+	state := make([]byte, len(wireNodes))
+	var stack []frame
+	for start := range wireNodes {
+		if state[start] != unvisited {
+			continue
+		}
+		state[start] = visiting
+		stack = append(stack[:0], frame{node: start})
+		for len(stack) > 0 {
+			top := &stack[len(stack)-1]
+			children := wireNodes[top.node].Children
+			if top.next == len(children) {
+				state[top.node] = done
+				stack = stack[:len(stack)-1]
+				continue
+			}
+			parent, child := top.node, children[top.next]
+			top.next++
+			if child < 0 || child >= len(wireNodes) {
+				return fmt.Errorf("node points to non-existent index %d (max=%d)", child, len(wireNodes))
+			}
+			switch state[child] {
+			case visiting:
+				return fmt.Errorf("node %d is its own descendant (child cycle closed by node %d)", child, parent)
+			case unvisited:
+				state[child] = visiting
+				stack = append(stack, frame{node: child})
+			}
+		}
+	}
+	return nil
 }
 
 type WireNode struct {
@@ -222,6 +238,7 @@ type WireNode struct {
 	Args       brigodier.NodeBuilder // nil-able
 	Built      brigodier.CommandNode
 	Validated  bool
+	building   bool // on the redirect chain that is currently being built
 }
 
 func (w *WireNode) decode(rd io.Reader, protocol proto.Protocol) (err error) {
@@ -274,65 +291,102 @@ func (w *WireNode) decode(rd io.Reader, protocol proto.Protocol) (err error) {
 	return nil
 }
 
-func (w *WireNode) toNodes(wireNodes []*WireNode) (bool, error) {
-	if !w.Validated {
+// buildCommandGraph turns the deserialized nodes into brigodier nodes and links them.
+// Every step is linear in the number of nodes and references; a graph the vanilla client would reject as an
+// "impossible command tree" (a node that is its own descendant, a redirect cycle) is an error.
+func buildCommandGraph(wireNodes []*WireNode) error {
+	for _, w := range wireNodes {
 		if err := w.validate(wireNodes); err != nil {
-			return false, err
+			return err
+		}
+	}
+	if err := checkChildrenAcyclic(wireNodes); err != nil {
+		return err
+	}
+
+	// Create the nodes. A redirecting node can only be created after its redirect target, so walk each
+	// redirect chain to its end first and create the nodes on the way back (iteratively: a chain can be as
+	// long as the packet).
+	var chain []*WireNode
+	for _, w := range wireNodes {
+		chain = chain[:0]
+		for cur := w; cur.Built == nil; cur = wireNodes[cur.RedirectTo] {
+			if cur.building {
+				// The chain came back to a node it started from: a redirect cycle.
+				return errors.New("stopped cycling; the root node can't be built")
+			}
+			cur.building = true
+			chain = append(chain, cur)
+			if cur.Flags&FlagNodeType == NodeTypeRoot || cur.RedirectTo == -1 {
+				break
+			}
+		}
+		for i := len(chain) - 1; i >= 0; i-- {
+			if err := chain[i].build(wireNodes); err != nil {
+				return err
+			}
 		}
 	}
 
-	if w.Built == nil {
-		nodeType := w.Flags & FlagNodeType
-		if nodeType == NodeTypeRoot {
-			w.Built = &brigodier.RootCommandNode{}
-		} else {
-			if w.Args == nil {
-				return false, errors.New("non-root node without args builder")
-			}
-
-			// Add any redirects
-			if w.RedirectTo != -1 {
-				redirect := wireNodes[w.RedirectTo]
-				if redirect.Built != nil {
-					w.Args.Redirect(redirect.Built)
-				} else {
-					// Redirect node does not yet exist
-					return false, nil
-				}
-			}
-
-			// If executable, add an empty command
-			if w.Flags&FlagExecutable != 0 {
-				w.Args.Executes(PlaceholderCommand)
-			}
-
-			// If restricted, handle the restriction flag
-			// Note: The Go brigodier library may not have a requirement system,
-			// so this is a placeholder for future implementation
-			if w.Flags&FlagIsRestricted != 0 {
-				w.Args.Requires(placeholderRequirement)
-			}
-
-			w.Built = w.Args.Build()
+	// All nodes exist now: associate children with nodes.
+	for _, w := range wireNodes {
+		if err := w.attachChildren(wireNodes); err != nil {
+			return err
 		}
 	}
+	return nil
+}
 
-	for _, child := range w.Children {
-		if wireNodes[child].Built == nil {
-			// The child is not yet decoded. The node can't be built now.
-			return false, nil
-		}
+// build creates the brigodier node; the redirect target (if any) must have been built.
+func (w *WireNode) build(wireNodes []*WireNode) error {
+	if w.Flags&FlagNodeType == NodeTypeRoot {
+		w.Built = &brigodier.RootCommandNode{}
+		return nil
+	}
+	if w.Args == nil {
+		return errors.New("non-root node without args builder")
 	}
 
-	// Associate children with nodes
+	// Add any redirects
+	if w.RedirectTo != -1 {
+		w.Args.Redirect(wireNodes[w.RedirectTo].Built)
+	}
+
+	// If executable, add an empty command
+	if w.Flags&FlagExecutable != 0 {
+		w.Args.Executes(PlaceholderCommand)
+	}
+
+	// If restricted, handle the restriction flag
+	// Note: The Go brigodier library may not have a requirement system,
+	// so this is a placeholder for future implementation
+	if w.Flags&FlagIsRestricted != 0 {
+		w.Args.Requires(placeholderRequirement)
+	}
+
+	w.Built = w.Args.Build()
+	return nil
+}
+
+// attachChildren adds the (already built) children to the built node, in wire order.
+func (w *WireNode) attachChildren(wireNodes []*WireNode) error {
+	// The children of one node must have distinct names (a well-formed tree always has: brigadier keys
+	// children by name). AddChild would otherwise MERGE the later child into the earlier one by adding
+	// the later one's children to it recursively; if the earlier child is itself among those
+	// (e.g. literal "a" and argument "a" -> [literal "a"]) it becomes its own child and the merge
+	// recursion never ends.
+	names := make(map[string]struct{}, len(w.Children))
 	for _, child := range w.Children {
 		childNode := wireNodes[child].Built
 		if _, ok := childNode.(*brigodier.RootCommandNode); !ok {
+			if _, dup := names[childNode.Name()]; dup {
+				return fmt.Errorf("node %d has more than one child named %q", w.IDx, childNode.Name())
+			}
+			names[childNode.Name()] = struct{}{}
 			w.Built.AddChild(childNode)
 		}
 	}
-
-	return true, nil
+	return nil
 }
 
 func (w *WireNode) validate(wireNodes []*WireNode) error {
